@@ -76,7 +76,27 @@ def seq_part(ctx, binp, quick):
     })
     ctx.log("sequential correspondence: %d cases, %d operations, %d disagreement(s)" % (
         len(jsons), ctx.cov["seq_operations"], len(bad)))
+    global_swap_part(ctx, binp, quick)
     return jsons
+
+
+def global_swap_part(ctx, binp, quick):
+    """informational, never gates: sequences that also replace the global logger
+    (zap.ReplaceGlobals) between operations — not one of the property's operations, but covered by
+    the model and by C18_seq; a difference here is recorded in the evidence only"""
+    t, j, err = vlib.harness_cases(ctx, binp, [("globalswap", ["-mode", "globalswap", "-n", 60 if quick else 1500])])
+    if err:
+        ctx.cov["global_swap"] = {"error": err[-500:]}
+        return
+    bad, _, err = ctx.judge_cases(L.HEADER, "lc_case", "lc_judge", t, shard=25 if quick else 120, tag="gswap")
+    ctx.cov["global_swap"] = {"gating": False, "cases": len(j),
+                              "global_replacements": sum(1 for c in j for o in c["ops"] if o["op"] == "Global"),
+                              "disagreements": len(bad) if not err else None, "error": err and err[-500:],
+                              "first_disagreeing_case": ({"glob": j[bad[0][0]]["glob"], "ops": j[bad[0][0]]["ops"]}
+                                                         if bad else None)}
+    ctx.log("informational (outside the quantifier, not gating): %d sequences with %d global-logger "
+            "replacements, %s disagreement(s)" % (len(j), ctx.cov["global_swap"]["global_replacements"],
+                                                  "?" if err else len(bad)))
 
 
 TIE = """From Coq Require Import List.
@@ -308,6 +328,8 @@ def g_op(o):
         return "OSetLevel %s (%d)%%Z" % (c, o["level"])
     if k == "EnableDebug":
         return "OEnableDebug " + c
+    if k == "Global":
+        return "OSetGlobal (Base (%d)%%Z %s)" % (o["level"], g_fields(o.get("fields")))
     return "ODerive " + c
 
 
